@@ -47,6 +47,7 @@ type Field struct {
 	Ptr   bool   `json:"ptr,omitempty"`   // Go field / value is a pointer
 	Maybe bool   `json:"maybe,omitempty"` // tagged `yae:",maybe"` (implies Ptr)
 	Nil   bool   `json:"nil,omitempty"`   // pointer is nil (V is then only the static prototype)
+	Embed bool   `json:"embed,omitempty"` // a struct-typed, non-pointer field is an embedded (anonymous) Go field
 	Tag   int    `json:"tag,omitempty"`   // spelling of the struct tag: 0 plain, 1 padded with spaces, 2 upper-case optional marker, 3 name left to the Go field name (capitalised names only)
 }
 
@@ -66,7 +67,7 @@ func cloneVT(v interface{}, out interface{}) {
 
 func (v *VT) mtype() string {
 	switch v.K {
-	case "num", "str", "bool", "time":
+	case "num", "str", "bool", "time", "stamp":
 		return v.K
 	case "list":
 		return "list[" + v.Proto.mtype() + "]"
@@ -118,7 +119,24 @@ var numKinds = map[string]reflect.Type{
 	"int": reflect.TypeOf(int(0)), "int8": reflect.TypeOf(int8(0)), "int32": reflect.TypeOf(int32(0)), "int64": reflect.TypeOf(int64(0)),
 	"uint16": reflect.TypeOf(uint16(0)), "uint64": reflect.TypeOf(uint64(0)), "float32": reflect.TypeOf(float32(0)), "float64": reflect.TypeOf(float64(0)),
 }
-var numKindNames = []string{"int", "int8", "int32", "int64", "uint16", "uint64", "float32", "float64"}
+var numKindNames = []string{"int", "int8", "int32", "int64", "uint16", "uint64", "float32", "float64", "duration", "celsius", "count"}
+
+// named host types: numeric ones are numbers like their underlying kind; a type DEFINED from
+// time.Time is not time.Time (the library special-cases the exact type) but an object of
+// time.Time's fields
+type (
+	Celsius float64
+	Count   uint16
+	Stamp   time.Time
+)
+
+func init() {
+	numKinds["duration"] = reflect.TypeOf(time.Duration(0))
+	numKinds["celsius"] = reflect.TypeOf(Celsius(0))
+	numKinds["count"] = reflect.TypeOf(Count(0))
+}
+
+var stampLoc = time.FixedZone("X", 3600)
 
 func (v *VT) goType() reflect.Type {
 	switch v.K {
@@ -133,6 +151,8 @@ func (v *VT) goType() reflect.Type {
 		return reflect.TypeOf(true)
 	case "time":
 		return reflect.TypeOf(time.Time{})
+	case "stamp":
+		return reflect.TypeOf(Stamp{})
 	case "list":
 		if v.Arr {
 			return reflect.ArrayOf(len(v.List), v.Proto.goType())
@@ -186,6 +206,9 @@ func structType(fs []*Field) reflect.Type {
 			}
 		}
 		sf[i] = reflect.StructField{Name: goName, Type: t, Tag: reflect.StructTag(tag)}
+		if f.Embed && t.Kind() == reflect.Struct && f.V.K == "obj" {
+			sf[i].Anonymous = true
+		}
 	}
 	return reflect.StructOf(sf)
 }
@@ -224,6 +247,8 @@ func (v *VT) goValue() reflect.Value {
 		rv.SetBool(v.Bool)
 	case "time":
 		rv.Set(reflect.ValueOf(time.Unix(v.Time, 0)))
+	case "stamp":
+		rv.Set(reflect.ValueOf(Stamp(time.Unix(v.Time, 0).In(stampLoc))))
 	case "list":
 		if v.Arr {
 			for i, e := range v.List {
@@ -335,6 +360,9 @@ func (g *gen7) prim() *VT {
 	case 5:
 		return &VT{K: "bool", Bool: r.chance(0.5)}
 	default:
+		if r.chance(0.25) {
+			return &VT{K: "stamp", Time: 1500000000 + int64(r.intn(100000))}
+		}
 		return &VT{K: "time", Time: 1500000000 + int64(r.intn(100000))}
 	}
 }
@@ -375,6 +403,9 @@ func (g *gen7) value(d int, ptrFree bool) *VT {
 			if goNameable(f.Name) && r.chance(0.5) {
 				f.Tag = 3
 			}
+			if f.V.K == "obj" && r.chance(0.4) {
+				f.Embed = true
+			}
 			if !ptrFree && r.chance(0.3) {
 				// pointers only around pointer-free payloads: keeps the static and the dynamic type equal
 				f.V = g.value(0, true)
@@ -414,7 +445,7 @@ func (g *gen7) scramble(v *VT) {
 		v.Str = r.pick([]string{"x", "yy", "héllo", "", "q r", "zz"})
 	case "bool":
 		v.Bool = r.chance(0.5)
-	case "time":
+	case "time", "stamp":
 		v.Time = 1500000000 + int64(r.intn(100000))
 	case "list":
 		n := len(v.List)
@@ -446,6 +477,9 @@ func (g *gen7) env() *Env7 {
 		b := &Field{Name: names[(off+i)%len(names)], V: g.value(1+r.intn(3), false)}
 		if goNameable(b.Name) && r.chance(0.5) {
 			b.Tag = 3
+		}
+		if b.V.K == "obj" && r.chance(0.3) {
+			b.Embed = true
 		}
 		if b.V.K == "obj" && r.chance(0.3) {
 			b.Ptr = true
@@ -484,6 +518,8 @@ func accessExprs(path string, v *VT, out *[]string, d int) {
 		*out = append(*out, "!"+path, "tr("+path+")")
 	case "time":
 		*out = append(*out, path+" > '2000-01-01 00:00:00 UTC'", "tr("+path+")")
+	case "stamp":
+		*out = append(*out, "tr("+path+")", "string(tr("+path+").loc.name)")
 	case "list":
 		*out = append(*out, "len("+path+")", "string("+path+")", "tr("+path+")")
 		if l := litOf(v.Proto); l != "" {
@@ -547,7 +583,7 @@ func genProg7(r *rng, e *Env7) string {
 // --- mutations ---------------------------------------------------------------------
 
 var mutKinds = []string{"same", "same", "contents", "extra", "numkind", "ptrflip", "carrier", "reorder", "reorder", "reorder-top",
-	"maybe-flip", "retype-maybe", "tagstyle", "raw", "array", "empty", "empty-retype", "hetero", "hetero", "drop", "retype-top", "retype-deep", "field-add", "field-remove", "field-rename", "nil-flip", "bad"}
+	"maybe-flip", "retype-maybe", "tagstyle", "embed", "time-named", "raw", "array", "empty", "empty-retype", "hetero", "hetero", "drop", "retype-top", "retype-deep", "field-add", "field-remove", "field-rename", "nil-flip", "bad"}
 
 // collect object nodes (with their depth) below the bindings
 func objNodes(e *Env7) []*VT {
@@ -684,6 +720,34 @@ func (g *gen7) mutate(a *Env7, kind string) *Env7 {
 			}
 			return false
 		})
+	case "time-named":
+		// time.Time <-> a type defined from it: different types
+		mutateShape(&e, r, func(v *VT) bool {
+			switch v.K {
+			case "time":
+				v.K = "stamp"
+			case "stamp":
+				v.K = "time"
+			default:
+				return false
+			}
+			return true
+		})
+	case "embed":
+		// struct-typed fields become embedded (anonymous) Go fields or stop being so: the
+		// field list, names and types are the same
+		for _, b := range e.Binds {
+			b.Embed = !b.Embed
+		}
+		mutateShape(&e, r, func(v *VT) bool {
+			if v.K != "obj" {
+				return false
+			}
+			for _, f := range v.Fields {
+				f.Embed = !f.Embed
+			}
+			return true
+		})
 	case "tagstyle":
 		// another spelling of the same struct tags (padding, case of the optional marker):
 		// the names and optional markers they denote are unchanged
@@ -746,6 +810,8 @@ func (g *gen7) mutate(a *Env7, kind string) *Env7 {
 				*v = VT{K: "str", Str: "b"}
 			case "time":
 				*v = VT{K: "num", NumKind: "int64", Num: 5}
+			case "stamp":
+				*v = VT{K: "str", Str: "s"}
 			default:
 				return false
 			}
@@ -801,7 +867,7 @@ func (g *gen7) mutate(a *Env7, kind string) *Env7 {
 				switch v.Proto.K {
 				case "num":
 					v.Proto = &VT{K: "str", Str: "e"}
-				case "str", "bool", "time":
+				case "str", "bool", "time", "stamp":
 					v.Proto = &VT{K: "num", NumKind: "int", Num: 1}
 				default:
 					v.Proto = &VT{K: "bool"}
@@ -1198,8 +1264,8 @@ func runHist7(h *Hist7, x *evalCtx) hist7Result {
 }
 
 // dominant names the mutation a violation is attributed to in its signature.
-var mutPriority = []string{"rawbot", "rawput", "again", "bad", "hetero", "empty-retype", "retype-maybe", "drop", "retype-top", "retype-deep", "field-add", "field-remove", "field-rename", "nil-flip",
-	"reorder", "reorder-top", "raw", "array", "empty", "tagstyle", "carrier", "ptrflip", "numkind", "maybe-flip", "extra", "contents", "same"}
+var mutPriority = []string{"rawbot", "rawput", "again", "bad", "hetero", "time-named", "empty-retype", "retype-maybe", "drop", "retype-top", "retype-deep", "field-add", "field-remove", "field-rename", "nil-flip",
+	"reorder", "reorder-top", "raw", "array", "empty", "embed", "tagstyle", "carrier", "ptrflip", "numkind", "maybe-flip", "extra", "contents", "same"}
 
 func dominant(muts []string) string {
 	for _, p := range mutPriority {
